@@ -66,7 +66,9 @@ Record frec := mk_frec {
   f_held : list key;        (* names this function object holds a count for (registration order, with repeats) *)
   f_bound : bool;           (* its EvalFuncVar is still bound to the name in the context's symbol table *)
   f_tracked : bool;         (* legacy: in ctx.triggers; new: in ctx.dms — released by ctx.stop() *)
-  f_pending : bool          (* new: validated, waiting for ctx.start() *)
+  f_pending : bool;         (* new: validated, waiting for ctx.start() *)
+  f_inc : N                 (* which incarnation (load) of its context it was defined in: all function objects of one
+                               incarnation hang on the same GlobalContext object and keep each other reachable *)
 }.
 
 Record st := mk_st {
@@ -75,10 +77,11 @@ Record st := mk_st {
   s_reg : key -> option hinfo;         (* HA's registry: which function generation handles the name *)
   s_funcs : list frec;                 (* function objects of loaded contexts that can still act, definition order *)
   s_files : list (cid * list stmt);    (* script files, sorted by context *)
-  s_next : gen
+  s_next : gen;
+  s_inc : cid -> N                     (* current incarnation of each context = value of s_next when it was (re)loaded *)
 }.
 Definition init_st : st :=
-  {| s_cnt := fun _ => 0%N; s_owner := fun _ => None; s_reg := fun _ => None; s_funcs := []; s_files := []; s_next := 1%N |}.
+  {| s_cnt := fun _ => 0%N; s_owner := fun _ => None; s_reg := fun _ => None; s_funcs := []; s_files := []; s_next := 1%N; s_inc := fun _ => 0%N |}.
 
 Definition upd {A} (m : key -> A) (k : key) (v : A) : key -> A := fun x => if N.eqb x k then v else m x.
 Definition memN (k : N) (l : list N) : bool := existsb (N.eqb k) l.
@@ -92,12 +95,13 @@ Definition cmpN (c : cmpop) (a b : N) : bool :=
   | CmpEq => (a =? b)%N | CmpNe => negb (a =? b)%N
   end.
 
-Definition set_cnt (s : st) f := mk_st f (s_owner s) (s_reg s) (s_funcs s) (s_files s) (s_next s).
-Definition set_owner (s : st) f := mk_st (s_cnt s) f (s_reg s) (s_funcs s) (s_files s) (s_next s).
-Definition set_reg (s : st) f := mk_st (s_cnt s) (s_owner s) f (s_funcs s) (s_files s) (s_next s).
-Definition set_funcs (s : st) f := mk_st (s_cnt s) (s_owner s) (s_reg s) f (s_files s) (s_next s).
-Definition set_files (s : st) f := mk_st (s_cnt s) (s_owner s) (s_reg s) (s_funcs s) f (s_next s).
-Definition set_next (s : st) n := mk_st (s_cnt s) (s_owner s) (s_reg s) (s_funcs s) (s_files s) n.
+Definition set_cnt (s : st) f := mk_st f (s_owner s) (s_reg s) (s_funcs s) (s_files s) (s_next s) (s_inc s).
+Definition set_owner (s : st) f := mk_st (s_cnt s) f (s_reg s) (s_funcs s) (s_files s) (s_next s) (s_inc s).
+Definition set_reg (s : st) f := mk_st (s_cnt s) (s_owner s) f (s_funcs s) (s_files s) (s_next s) (s_inc s).
+Definition set_funcs (s : st) f := mk_st (s_cnt s) (s_owner s) (s_reg s) f (s_files s) (s_next s) (s_inc s).
+Definition set_files (s : st) f := mk_st (s_cnt s) (s_owner s) (s_reg s) (s_funcs s) f (s_next s) (s_inc s).
+Definition set_next (s : st) n := mk_st (s_cnt s) (s_owner s) (s_reg s) (s_funcs s) (s_files s) n (s_inc s).
+Definition set_inc (s : st) (c : cid) (i : N) := mk_st (s_cnt s) (s_owner s) (s_reg s) (s_funcs s) (s_files s) (s_next s) (fun x => if N.eqb x c then i else s_inc s x).
 
 (* ---------- function.py service_register ----------
      if key not in service_cnt: service_cnt[key] = 0
@@ -136,13 +140,13 @@ Definition refresh (s : st) (k : key) : st :=
 Definition upd_rec (g : gen) (f : frec -> frec) (l : list frec) : list frec :=
   map (fun r => if N.eqb (f_gen r) g then f r else r) l.
 Definition with_held (h : list key) (r : frec) :=
-  mk_frec (f_ctx r) (f_name r) (f_gen r) (f_sr r) (f_decl r) h (f_bound r) (f_tracked r) (f_pending r).
+  mk_frec (f_ctx r) (f_name r) (f_gen r) (f_sr r) (f_decl r) h (f_bound r) (f_tracked r) (f_pending r) (f_inc r).
 Definition with_bound (b : bool) (r : frec) :=
-  mk_frec (f_ctx r) (f_name r) (f_gen r) (f_sr r) (f_decl r) (f_held r) b (f_tracked r) (f_pending r).
+  mk_frec (f_ctx r) (f_name r) (f_gen r) (f_sr r) (f_decl r) (f_held r) b (f_tracked r) (f_pending r) (f_inc r).
 Definition with_tracked (b : bool) (r : frec) :=
-  mk_frec (f_ctx r) (f_name r) (f_gen r) (f_sr r) (f_decl r) (f_held r) (f_bound r) b (f_pending r).
+  mk_frec (f_ctx r) (f_name r) (f_gen r) (f_sr r) (f_decl r) (f_held r) (f_bound r) b (f_pending r) (f_inc r).
 Definition with_pending (b : bool) (r : frec) :=
-  mk_frec (f_ctx r) (f_name r) (f_gen r) (f_sr r) (f_decl r) (f_held r) (f_bound r) (f_tracked r) b.
+  mk_frec (f_ctx r) (f_name r) (f_gen r) (f_sr r) (f_decl r) (f_held r) (f_bound r) (f_tracked r) b (f_inc r).
 
 (* trigger_stop (legacy: `for srv_name in self.trigger_service` — a set) / ServiceDecorator.stop:
    the function object gives up everything it holds *)
@@ -194,7 +198,7 @@ Definition do_def (cfg : deviations) (legacy started : bool) (c : cid) (f : fid)
   let pend := negb legacy && negb invalid && negb started in
   (* D26 on: every occurrence of a repeated name is registered; conformant: a name is registered once *)
   let decl' := if d_dup_set cfg then decl else nodupN decl in
-  let nr := mk_frec c f g m decl' [] true (negb invalid) pend in
+  let nr := mk_frec c f g m decl' [] true (negb invalid) pend (s_inc s c) in
   let s1 := set_funcs s0 (s_funcs s0 ++ [nr]) in
   let s2 := if legacy then commit (d_alias_abort cfg) s1 nr
             else if invalid || pend then s1 else commit false s1 nr in
@@ -227,11 +231,41 @@ Definition start_order (cfg : deviations) (oracle pend : list gen) : list gen :=
 Definition start_ctx (cfg : deviations) (oracle : list gen) (s : st) (c : cid) : st :=
   fold_left start_one (start_order cfg oracle (pending_gens s c)) s.
 
-(* global_ctx.stop() followed by GlobalContextMgr.delete *)
+(* global_ctx.stop() followed by GlobalContextMgr.delete.  Function objects recorded in the context (ctx.triggers / ctx.dms)
+   release what they hold and are forgotten.  A legacy function that is NOT recorded (D120) keeps its holdings: nothing
+   refers to it any more except HA's registry (through the handlers it registered), so it lives on as garbage-to-be,
+   unbound, until the garbage collector finds it (see [gc]) *)
+Definition stop_step (cfg : deviations) (legacy : bool) (s : st) (r : frec) : st :=
+  if f_tracked r then release cfg legacy s r else s.
+Definition nonempty (l : list key) : bool := match l with [] => false | _ => true end.
+(* a released function whose handler was left in HA's registry (D21/D26) is still called by HA *)
+Definition is_handler (s : st) (r : frec) : bool :=
+  existsb (fun k => match s_reg s k with Some (g, _) => N.eqb g (f_gen r) | None => false end) (f_decl r).
 Definition stop_ctx (cfg : deviations) (legacy : bool) (s : st) (c : cid) : st :=
   let recs := filter (fun r => N.eqb (f_ctx r) c) (s_funcs s) in
-  let s1 := fold_left (fun s r => if f_tracked r then release cfg legacy s r else s) recs s in
-  set_funcs s1 (filter (fun r => negb (N.eqb (f_ctx r) c)) (s_funcs s1)).
+  let s1 := fold_left (stop_step cfg legacy) recs s in
+  let keep r := negb (N.eqb (f_ctx r) c) || nonempty (f_held r) || is_handler s1 r in
+  set_funcs s1 (map (fun r => if N.eqb (f_ctx r) c then with_bound false r else r) (filter keep (s_funcs s1))).
+
+(* function objects that can never act again are forgotten *)
+Definition inert (r : frec) : bool := negb (f_bound r) && negb (f_pending r) && match f_held r with [] => true | _ => false end.
+(* ... unless HA still calls them: such a function keeps its whole context incarnation reachable *)
+Definition prune (s : st) : st := set_funcs s (filter (fun r => negb (inert r) || is_handler s r) (s_funcs s)).
+
+(* Python's cyclic garbage collector: an unrecorded function object of a stopped context incarnation that still holds names is
+   unreachable as soon as no handler registered by any function object of that incarnation is HA's current handler of a
+   name (handler -> EvalFunc -> GlobalContext -> symbol table -> every function of the incarnation); collecting it runs
+   EvalFuncVar.__del__ ->
+   trigger_stop, which releases its holdings.  The driver collects (three times) after every operation, so does the Model;
+   one pass = one gc.collect(): the unreachable set is determined first, then every member is finalised *)
+Definition inc_alive (s : st) (i : N) : bool :=
+  existsb (fun r => N.eqb (f_inc r) i && is_handler s r) (s_funcs s).
+Definition collectable (s : st) (r : frec) : bool :=
+  negb (f_bound r) && negb (f_tracked r) && nonempty (f_held r) && negb (inc_alive s (f_inc r)).
+Definition gc_pass (cfg : deviations) (legacy : bool) (s : st) : st :=
+  fold_left (release cfg legacy) (filter (collectable s) (s_funcs s)) s.
+Definition gc (cfg : deviations) (legacy : bool) (s : st) : st :=
+  gc_pass cfg legacy (gc_pass cfg legacy (gc_pass cfg legacy s)).
 
 Fixpoint file_set (c : cid) (b : list stmt) (l : list (cid * list stmt)) : list (cid * list stmt) :=
   match l with
@@ -241,27 +275,23 @@ Fixpoint file_set (c : cid) (b : list stmt) (l : list (cid * list stmt)) : list 
 Definition file_del (c : cid) (l : list (cid * list stmt)) := filter (fun p => negb (N.eqb (fst p) c)) l.
 Definition loaded (s : st) (c : cid) : bool := existsb (fun p => N.eqb (fst p) c) (s_files s).
 
-(* function objects that can never act again are forgotten *)
-Definition inert (r : frec) : bool := negb (f_bound r) && negb (f_pending r) && match f_held r with [] => true | _ => false end.
-Definition prune (s : st) : st := set_funcs s (filter (fun r => negb (inert r)) (s_funcs s)).
-
 Definition run_op (cfg : deviations) (legacy : bool) (s : st) (o : op) : st :=
-  prune
+  prune (gc cfg legacy
   match o with
   | OExec c b => if loaded s c then run_body cfg legacy true c b s else s
   | OLoad c b oracle =>
       let s1 := if loaded s c then stop_ctx cfg legacy s c else s in
       let s2 := set_files s1 (file_set c b (s_files s1)) in
-      let s3 := run_body cfg legacy false c b s2 in
+      let s3 := run_body cfg legacy false c b (set_inc s2 c (s_next s2)) in
       if legacy then s3 else start_ctx cfg oracle s3 c
   | OUnload c =>
       if loaded s c then let s1 := stop_ctx cfg legacy s c in set_files s1 (file_del c (s_files s1)) else s
   | OReloadAll w oracle =>
       let s1 := fold_left (stop_ctx cfg legacy) (map fst (s_files s)) s in
       let s2 := set_files s1 (fold_left (fun l p => file_set (fst p) (snd p) l) w (s_files s1)) in
-      let s3 := fold_left (fun s p => run_body cfg legacy false (fst p) (snd p) s) (s_files s2) s2 in
+      let s3 := fold_left (fun s p => run_body cfg legacy false (fst p) (snd p) (set_inc s (fst p) (s_next s))) (s_files s2) s2 in
       if legacy then s3 else fold_left (start_ctx cfg oracle) (map fst (s_files s3)) s3
-  end.
+  end).
 
 Definition run_ops (cfg : deviations) (legacy : bool) (ops : list op) (s : st) : st :=
   fold_left (run_op cfg legacy) ops s.
